@@ -13,23 +13,23 @@ for line in open(os.path.join(HERE, 'properties.jsonl')):
     TITLES[p['id']] = p['title']
 
 TECH = {
-    'C01': 'runtime contract on to_str/__str__/__format__ + reference SGR terminal emulator over seeded histories',
+    'C01': 'runtime contract on to_str/__str__/__format__ + reference SGR terminal emulator over seeded histories + bounded-exhaustive operation tree (every history of <= 2-4 apply/remove operations) as workload',
     'C02': 'runtime contract on constructors/set_ansi_str + reference tokenizer and SGR terminal (differential)',
-    'C03': 'runtime contract on simplify + driven render/re-parse probe judged by the SGR terminal model',
-    'C04': 'runtime contract on __getitem__/clip/iteration: per-character shadow comparison + closure probes',
-    'C05': 'runtime contract on __add__/__iadd__/join: per-character shadow comparison, fold model, split-rejoin probe',
-    'C06': 'runtime contract on apply_formatting: pre/post shadow comparison + display rules via SGR model',
-    'C07': 'runtime contract on remove_formatting/clear_formatting: pre/post shadow comparison',
-    'C08': 'universal runtime contract (pre/post observation of receiver and arguments) + mutation/aliasing probes',
-    'C09': 'step-budget monitor (sys.monitoring LINE counts), exception-type contract, post-raise state check, health probes',
+    'C03': 'runtime contract on simplify + driven render/re-parse probe judged by the SGR terminal model + bounded-exhaustive operation tree (every history of <= 2-4 apply/remove operations) as workload',
+    'C04': 'runtime contract on __getitem__/clip/iteration: per-character shadow comparison + closure probes + bounded-exhaustive operation tree (every history of <= 2-4 apply/remove operations) as workload',
+    'C05': 'runtime contract on __add__/__iadd__/join: per-character shadow comparison, fold model, split-rejoin probe + bounded-exhaustive operation tree (every history of <= 2-4 apply/remove operations) as workload',
+    'C06': 'runtime contract on apply_formatting: pre/post shadow comparison + display rules via SGR model + bounded-exhaustive operation tree (every history of <= 2-4 apply/remove operations) as workload',
+    'C07': 'runtime contract on remove_formatting/clear_formatting: pre/post shadow comparison + bounded-exhaustive operation tree (every history of <= 2-4 apply/remove operations) as workload',
+    'C08': 'universal runtime contract (pre/post observation of receiver and arguments) + mutation/aliasing probes + bounded-exhaustive operation tree (every history of <= 2-4 apply/remove operations) as workload',
+    'C09': 'step-budget monitor (sys.monitoring LINE counts), exception-type contract, post-raise state check, health probes + bounded-exhaustive operation tree (every history of <= 2-4 apply/remove operations) as workload',
     'C10': 'differential runtime contract against Python str on the base text',
-    'C11': 'runtime contract with independent offset scanner cross-checked against str; per-character shadow comparison',
-    'C12': 'runtime contract on padding/format: str/format() text reference + per-character shadow + SGR display model',
+    'C11': 'runtime contract with independent offset scanner cross-checked against str; per-character shadow comparison + bounded-exhaustive operation tree (every history of <= 2-4 apply/remove operations) as workload',
+    'C12': 'runtime contract on padding/format: str/format() text reference + per-character shadow + SGR display model + bounded-exhaustive operation tree (every history of <= 2-4 apply/remove operations) as workload',
     'C13': 'twin-execution monitor AnsiStr vs AnsiString + payload==rendering contract on every AnsiStr leaving the API',
     'C14': 'differential monitor over enumerated spellings (all AnsiFormat members exhaustively) + rejection contracts',
     'C15': 'runtime contract on AnsiSetting.valid/parsable vs grammar oracle + render well-formedness monitor',
-    'C16': 'runtime contract: post-state vs explicit re.finditer fold of apply/remove on a copy',
-    'C17': 'runtime contract on settings queries vs per-character table',
+    'C16': 'runtime contract: post-state vs explicit re.finditer fold of apply/remove on a copy + bounded-exhaustive operation tree (every history of <= 2-4 apply/remove operations) as workload',
+    'C17': 'runtime contract on settings queries vs per-character table + bounded-exhaustive operation tree (every history of <= 2-4 apply/remove operations) as workload',
     'C18': 'differential monitor of parse_graphic_sequence/settings_to_dict against the SGR terminal model',
     'C19': 'runtime contract on ParsedAnsiControlSequenceString vs reference tokenizer; helper-output grammar check',
 }
